@@ -72,20 +72,29 @@ impl VIOT {
 
     pub fn add_pci_range(&mut self, range: PciRange) {
         self.update_header(range.u8sum(), PciRange::len() as u32);
-        self.handle_offset += PciRange::len() as u16;
+        self.handle_offset = self
+            .handle_offset
+            .checked_add(PciRange::len() as u16)
+            .expect("VIOT node offsets are 16-bit");
         self.nodes.push(Box::new(range));
     }
 
     pub fn add_mmio_endpoint(&mut self, ep: MmioEndpoint) {
         self.update_header(ep.u8sum(), MmioEndpoint::len() as u32);
-        self.handle_offset += MmioEndpoint::len() as u16;
+        self.handle_offset = self
+            .handle_offset
+            .checked_add(MmioEndpoint::len() as u16)
+            .expect("VIOT node offsets are 16-bit");
         self.nodes.push(Box::new(ep));
     }
 
     pub fn add_virtio_pci_iommu(&mut self, iommu: VirtIoPciIommu) -> TranslationHandle {
         let old_offset = self.handle_offset;
         self.update_header(iommu.u8sum(), VirtIoPciIommu::len() as u32);
-        self.handle_offset += VirtIoPciIommu::len() as u16;
+        self.handle_offset = self
+            .handle_offset
+            .checked_add(VirtIoPciIommu::len() as u16)
+            .expect("VIOT node offsets are 16-bit");
         self.nodes.push(Box::new(iommu));
         TranslationHandle(old_offset)
     }
@@ -93,7 +102,10 @@ impl VIOT {
     pub fn add_virtio_mmio_iommu(&mut self, iommu: VirtIoMmioIommu) -> TranslationHandle {
         let old_offset = self.handle_offset;
         self.update_header(iommu.u8sum(), VirtIoMmioIommu::len() as u32);
-        self.handle_offset += VirtIoMmioIommu::len() as u16;
+        self.handle_offset = self
+            .handle_offset
+            .checked_add(VirtIoMmioIommu::len() as u16)
+            .expect("VIOT node offsets are 16-bit");
         self.nodes.push(Box::new(iommu));
         TranslationHandle(old_offset)
     }
